@@ -530,7 +530,8 @@ class OpTap:
             for slot, va, ea in specs:
                 ups = sorted({I.id(u) for u in self.b._find_arg_upstreams(ea)})
                 args_sx.append(f"(i{slot} {self.vspec(va)} {_sxv(ups)})")
-            sub = sorted(I.id(t.hash) for t in k["subtree_tasks"])
+            # in the iteration order of the set the real code iterates (the order of the Task-value commits)
+            sub = [I.id(t.hash) for t in k["subtree_tasks"]]
             node = f"(i{I.id(call)} i{I.id(k['task_hash'])} i{I.id(k['args_hash'])} i{I.id(k['result_hash'])} i{ts})"
             ev.update(req=f"(cnode i{r} {node} {_sxv([I.id(c) for c in k['child_call_hashes']])} "
                           f"({' '.join(args_sx)}) {_sxv(sub)})",
@@ -771,6 +772,57 @@ class TwinProgram:
         return self.tasks[i].hash
 
 
+class NoProvProgram:
+    """P(shallow) calls `kids` leaf tasks with prov=False: the children leave no Job / CallNode / Task rows, so
+    `record_call_node(P)` takes the branch that records the Task value of every subtree task itself
+    (`recorded_child_hashes < set(child_call_hashes)`).  Task indices: 0 = P, 1.. = children."""
+
+    def __init__(self, kids=2, ns="gcnp"):
+        self.ns = ns
+        self.kids = kids
+        self.n = kids + 1
+        self.versions = [1] * self.n
+
+    def describe(self):
+        return dict(program=f"P(shallow) -> {self.kids} leaf tasks called with prov=False", versions=list(self.versions))
+
+    def edit(self, i):
+        self.versions[i] += 1
+
+    def expected_main(self):
+        return [1000 + self.versions[0]] + [1000 * (i + 1) + self.versions[i] + (1 + i) for i in range(1, self.n)]
+
+    def define(self):
+        from redun import task
+        ns, vs, n = self.ns, list(self.versions), self.n
+        tasks = {}
+
+        def leaf(i):
+            c = 1000 * (i + 1) + vs[i]
+
+            def body(x):
+                return c + x
+            body.__name__ = f"c{i}"
+            return task(name=f"c{i}", namespace=ns, version=str(vs[i]))(body)
+        for i in range(1, n):
+            tasks[i] = leaf(i)
+        cp = 1000 + vs[0]
+
+        @task(name="P", namespace=ns, version=str(vs[0]), check_valid="shallow")
+        def P(x):
+            return [cp] + [tasks[i].options(prov=False)(x + i) for i in range(1, n)]
+        tasks[0] = P
+
+        @task(name="main_np", namespace=ns, version="1")
+        def main_np():
+            return P(1)
+        self.tasks = tasks
+        return main_np
+
+    def task_hash(self, i):
+        return self.tasks[i].hash
+
+
 def gen_program(rng, n=None, ns="gc"):
     n = n or rng.choice([2, 3, 3, 4, 4, 5])
     calls = []
@@ -941,6 +993,13 @@ class Case:
             self.on_result(self, r, res, crash_at, fault_k, fired)
         return res, fired, tap.n
 
+    def branch(self, r_from, r_new):
+        """continue on a copy of repository `r_from` as repository `r_new` (the model gets the same state)"""
+        path = self.env.new_db()
+        shutil.copyfile(self.repos[r_from], path)
+        self.adopt(r_new, path)
+        return path
+
     def adopt(self, r, path):
         """continue on a copy of a durable snapshot: the model is told to go back to that state with `load`"""
         self.repos[r] = path
@@ -991,6 +1050,19 @@ class Case:
                 out.append(ev["req"])
                 evs.append(dict(ev, second=True))
         return out, evs
+
+
+def commit_range_of(case: Case, name="record_call_node", which=0):
+    """(first, last) 1-based writing-commit numbers of the `which`-th logged call of `name` in the case's events"""
+    n, seen = 0, 0
+    for ev in case.events:
+        k = len(ev.get("dumps") or [])
+        if ev.get("name") == name:
+            if seen == which:
+                return n + 1, n + k
+            seen += 1
+        n += k
+    return None
 
 
 def compare_case(ctx, case: Case, evs, replies, tables=REC_TABLES):
